@@ -79,6 +79,7 @@ var parserWorkReceiveChannel = func() chan<- jobIn {
 
 					out.record = NewRecord(values, false, time.Time{})
 				}
+				verifJSONGate(job.ctx, job.lines[0])
 				select {
 				case job.outChan <- outJobs:
 				case <-job.ctx.Done():
